@@ -1662,6 +1662,25 @@ theorem entry_plus_int_eq_blkSum {f : Func} (cnt blkc : Nat → Nat) (bs : List 
       omega
   exact key bs fun b hb => hb
 
+theorem entryNoPred_of_B {f : Func} {bs : List Nat} (h : entryNoPredB f bs = true) :
+    EntryNoPred f bs := by
+  unfold entryNoPredB at h
+  simp only [List.all_eq_true] at h
+  intro b hb blk hblk hno
+  have := h b hb
+  rw [hblk] at this
+  simp only [hno, ne_eq, not_true_eq_false, decide_false, Bool.false_or, List.isEmpty_iff] at this
+  exact this
+
+/-- for a conserved flow the inflow is a valid block counter on any list of real blocks -/
+theorem countsAreFlow_of_flow {f : Func} {F : Nat → Nat} (hF : Flow f F) {bs : List Nat}
+    (hbs : ∀ b ∈ bs, b < f.blocks.length) : CountsAreFlow f F (inflow f F) bs := by
+  intro b hb
+  obtain ⟨blk, hblk⟩ := Adj.block_of_lt (hbs b hb)
+  refine ⟨blk, hblk, by simp [inflow, hblk], ?_⟩
+  simp only [inflow, hblk]
+  exact hF.conserve b blk hblk
+
 theorem sum_pos_mem (g : Nat → Nat) : ∀ (l : List Nat), 0 < (l.map g).sum → ∃ b ∈ l, 0 < g b := by
   intro l
   induction l with
@@ -1893,5 +1912,22 @@ theorem compute_flowGcda_multi (version checksum : Nat) (f : Func)
   have hget := mergeLines_get ls _ lsm hkeys hml l n hmem (by simp)
   have hfn : (addVirtualArc version f).fileName = f.fileName := addVirtualArc_fileName version f
   exact ⟨c', _, cyc, cyc', n, h3, h4, by rw [hfn, get?_set, if_pos rfl], hg, hget⟩
+
+/-- what the driver prints as the class of a line is certified: class 0 lines carry no circuit,
+class 1 lines exactly the simple loop printed with them -/
+theorem lineClass_sound {f : Func} (hA : Adj f) (bs : List Nat) :
+    ((lineClass f bs).1 = 0 → NoCycle f bs) ∧
+    ((lineClass f bs).1 = 1 → ∃ m, OneLoop f bs (lineClass f bs).2 m) := by
+  unfold lineClass
+  split
+  · rename_i h
+    exact ⟨fun _ => noCycle_of_cert hA h, fun h' => by simp at h'⟩
+  · simp only
+    split
+    · rename_i h
+      refine ⟨fun h' => by simp at h', fun _ => ?_⟩
+      obtain ⟨m, hm, _⟩ := oneLoop_of_cert hA h
+      exact ⟨m, hm⟩
+    · exact ⟨fun h' => by simp at h', fun h' => by simp at h'⟩
 
 end Grcov.Gcno
